@@ -103,6 +103,16 @@ CHECKS = {
             'Trusted: NumPy as reference; casts NumPy leaves undefined are kept out of the payload; quick tier fixes some '
             'dimensions at 2-4 representatives (sub-products listed in the evidence), thorough takes all 24 source types.',
             'DESIGN.md section 4 C01'),
+    'C06': ('enum', 'exploration', E2,
+            'The complete space of generated programs: 13 types x 2 byte orders x 8 (quick) / 13 (thorough) shapes of rank 1-5 with '
+            'pairwise distinct extents and length-1 axes x 12 languages x 3 path modes, plus empty arrays; offered/withheld exactly as the '
+            'tables of docs/readcode.rst (parsed at run time) say and as readcodelanguages lists; the file literal is the requested path; '
+            'Python-family code is executed in a forked child, the other eight languages are parsed and interpreted by mini-interpreters '
+            'of their documented read/reshape/index semantics on the real file bytes; the result must be the stored values with axes as '
+            'stored / reversed; the directory must be byte-identical afterwards.',
+            'Trusted: my encoding of the eight languages in dv/langs (DESIGN.md appendix A), lenient where uncertain, self-tested by '
+            'fixtures in ./run selftest; element values have pairwise distinct bytes per lane so byte/axis permutations are visible.',
+            'DESIGN.md section 4 C06, appendix A'),
     'C12': ('enum', 'exploration', E2,
             'Every index tuple of length 0..rank+1 over a per-axis atom set (all ints in [-n-1,n], slices, Ellipsis, None, int '
             'lists/arrays, bool masks, non-index objects) for arrays of rank 1-4 incl. empty ones: reads and writes compared '
